@@ -122,18 +122,19 @@ impl Scaled {
     }
 
     /// TeX.2021.105
-    pub fn nx_plus_y(self, mut n: i32, y: Scaled) -> Result<Scaled, OverflowError> {
-        let max_answer = Scaled::MAX_DIMEN;
+    pub fn nx_plus_y(self, n: i32, y: Scaled) -> Result<Scaled, OverflowError> {
+        // The calculation uses 64 bit integers so that negating -2^31 can't overflow.
+        let max_answer: i64 = Scaled::MAX_DIMEN.0.into();
+        let (mut n, mut x, y): (i64, i64, i64) = (n.into(), self.0.into(), y.0.into());
         if n == 0 {
-            return Ok(y);
+            return Ok(Scaled(y as i32));
         }
-        let mut x = self;
         if n < 0 {
             n = -n;
             x = -x;
         }
         if x <= (max_answer - y) / n && -x <= (max_answer + y) / n {
-            Ok(x * n + y)
+            Ok(Scaled((x * n + y) as i32))
         } else {
             Err(OverflowError {})
         }
